@@ -23,7 +23,7 @@ SPEC = os.path.join(common.VERIF, "spec")
 
 _STATES = re.compile(r"(\d+) states generated, (\d+) distinct states found")
 _DEPTH = re.compile(r"depth of the complete state graph search is (\d+)")
-_VERD = re.compile(r'<<"V", (-?\d+), "([^"]*)">>')
+_VERD = re.compile(r'<<"([A-Z])", (-?\d+), "([^"]*)">>')
 
 
 class TLCFailure(Exception):
@@ -154,6 +154,7 @@ def validate(scratch, module, traces, chunk=2000, jvms=None, timeout=1800,
         jobs.append((d, module, cfg, p, bi, scratch, timeout, xss, xmx))
         spans.append((lo, len(part)))
     verdicts = [None] * len(traces)
+    extra = {}  # other tags: tag -> list (per trace) of the last line with that tag
     stats = {"generated": 0, "distinct": 0, "depth": 0, "jvm_runs": len(jobs), "wall": 0.0}
     with cf.ThreadPoolExecutor(max_workers=jvms) as ex:
         results = list(ex.map(_one_batch, jobs))
@@ -164,9 +165,13 @@ def validate(scratch, module, traces, chunk=2000, jvms=None, timeout=1800,
         stats["depth"] = max(stats["depth"], st["depth"])
         stats["wall"] += wall
         for m in _VERD.finditer(out):
-            tid = int(m.group(1))
+            tid = int(m.group(2))
+            if m.group(1) != "V":
+                if 1 <= tid <= n:
+                    extra.setdefault(m.group(1), [None] * len(traces))[lo + tid - 1] = m.group(3)
+                continue
             if 1 <= tid <= n:
-                v = m.group(2)
+                v = m.group(3)
                 cur = verdicts[lo + tid - 1]
                 # a trace may print several lines; the worst one wins
                 if cur is None or (cur == "ok" and v != "ok"):
@@ -181,6 +186,7 @@ def validate(scratch, module, traces, chunk=2000, jvms=None, timeout=1800,
             os.remove(job[3])
         except OSError:
             pass
+    stats["extra"] = extra
     return verdicts, stats
 
 
